@@ -6,6 +6,7 @@ def run(cx):
     S.supplemental_callargs(cx)
     S.tokenizer(cx)
     S.short_reads(cx)
+    S.propagation(cx)      # an ill-formed primary or supplemental TEXT ends the load (only ANALYSIS is tolerant)
     cx.floor('TOKENS', cx.rules.get('TOKENS', 0), 27, 'tokenizer statements')
     cx.decided += [
         'supplemental TEXT and both ANALYSIS reads are split with the primary delimiter (same definition reaches all three sites) and only their dictionary is used',
